@@ -29,17 +29,30 @@ from .. import schema as S
 MODULE = 'Sbepp.Properties.C09'
 THEOREMS = [
     'Sbepp.Properties.C09.unchecked_sites_covered',
-    'Sbepp.Properties.C09.no_stale_table_entries',
+    'Sbepp.Properties.C09.guard_table_nodup',
+    'Sbepp.Properties.C09.every_site_classified',
+    'Sbepp.Properties.C09.trigger_sites_unguarded',
     'Sbepp.Properties.C09.run_no_crash_false',
-    'Sbepp.Properties.C09.run_no_crash_partial',
     'Sbepp.Properties.C09.crash_only_at_unguarded',
+    'Sbepp.Properties.C09.run_no_crash_partial',
     'Sbepp.Properties.C09.run_terminates',
     'Sbepp.Properties.C09.run_fuel_stable',
     'Sbepp.Properties.C09.include_cycle_exhausts_any_fuel',
     'Sbepp.Properties.C09.rejected_leaves_no_files_false',
     'Sbepp.Properties.C09.rejected_leaves_no_files_partial',
+    'Sbepp.Properties.C09.rejected_leaves_no_files_if_open_succeeds',
     'Sbepp.Properties.C09.ok_writes_all_files',
-    'Sbepp.Properties.C09.fmtSafe_iff_no_brace',
+    'Sbepp.Properties.C09.fmtSafe_of_no_brace',
+    # the concrete witnesses of the refutations (replayed on the real sbeppc below)
+    'Sbepp.Properties.C09.witness_brace_arg',
+    'Sbepp.Properties.C09.witness_brace_path',
+    'Sbepp.Properties.C09.witness_directory',
+    'Sbepp.Properties.C09.witness_const_char',
+    'Sbepp.Properties.C09.witness_const_char_value_ref',
+    'Sbepp.Properties.C09.witness_include_cycle',
+    'Sbepp.Properties.C09.witness_depth',
+    'Sbepp.Properties.C09.witness_offset',
+    'Sbepp.Properties.C09.witness_files_after_reject',
 ]
 
 TIMEOUT = 25
@@ -108,6 +121,23 @@ def snapshot(d):
 FRAME = re.compile(r'#\d+\s+0x[0-9a-f]+\s+in\s+(.+?)\s+(/\S+?):(\d+)')
 
 
+def recursion_family(out):
+    """For a stack overflow the top frame is arbitrary; the stable part is the
+    set of repository functions that repeat in the trace."""
+    seen, rep = {}, set()
+    for m in FRAME.finditer(out):
+        fn, path = m.group(1), m.group(2)
+        if '/sbepp/sbeppc/' not in path:
+            continue
+        fn = re.sub(r'\(.*', '', fn)
+        fn = re.sub(r'<[^<>]*>', '', fn).split('::')[-1].strip()
+        key = '%s:%s' % (os.path.basename(path), fn)
+        seen[key] = seen.get(key, 0) + 1
+        if seen[key] > 1:
+            rep.add(key)
+    return '+'.join(sorted(rep)[:3]) if rep else None
+
+
 def top_repo_frame(out):
     for m in FRAME.finditer(out):
         fn, path = m.group(1), m.group(2)
@@ -153,14 +183,13 @@ def classify(rc, out, new_files):
                 site += '@' + fr
             sigs = 'SIGABRT'
         elif san:
-            fr = top_repo_frame(out)
+            fr = recursion_family(out) if san == 'asan:stack-overflow' else top_repo_frame(out)
             site = san + ('@' + fr if fr else '')
             sigs = 'sanitizer'
         else:
             site = 'signal-%s' % sig
             sigs = 'signal-%s' % sig
-        return {'what': 'abort', 'signal': sigs if sig is None else 'signal-%d' % sig if sigs.startswith('signal') else sigs,
-                'site': site, 'rc': rc}
+        return {'what': 'abort', 'signal': sigs, 'site': site, 'rc': rc}
     if rc == 0:
         return {'what': 'ok'}
     if rc != 1:
@@ -218,22 +247,28 @@ def ddmin(items, test, budget):
     return items
 
 
-def minimise(exe, case, sig, scratch, budget=160):
+def minimise(exe, case, sig, scratch, budget=120, seconds=12.0):
     """Smaller case with the same signature: drop side files, then lines of the
     main file, then elements of a one-line file; argv options."""
     counter = [0]
+    t_end = time.time() + seconds
 
     def still(c):
+        if time.time() > t_end:
+            return False
         counter[0] += 1
         d = os.path.join(scratch, 'min%d' % counter[0])
         try:
-            rc, out, new = run_case(exe, c, d)
+            rc, out, new = run_case(exe, c, d, timeout=8)
             return signature(classify(rc, out, new)) == sig
         finally:
             shutil.rmtree(d, ignore_errors=True)
 
     cur = {'files': dict(case['files']), 'dirs': list(case.get('dirs', [])), 'argv': list(case['argv']),
            'mutation': case['mutation'], 'detail': case.get('detail', '')}
+    if sig[1] == 'timeout':
+        cur['minimise_runs'] = 0
+        return cur
     # side files
     for rel in sorted(cur['files']):
         if rel == 'schema.xml' or len(cur['files']) <= 1:
@@ -296,22 +331,43 @@ def _schema(types='', msgs='', attrs='package="w" id="1" version="0"'):
         attrs, HDR, types, msgs)).encode()
 
 
-# each witness: (name of the unguarded site in Sbepp.Gen.Pipeline.guardTable, case, regex on the observed site)
+def _deep(n):
+    return ''.join('<composite name="c%d">' % i for i in range(n)) + '<type name="leaf" primitiveType="uint8"/>' + \
+        '</composite>' * n
+
+
+ENUM = '<enum name="E" encodingType="char"><validValue name="A">A</validValue></enum>'
+
+# each witness: (Lean theorem in Sbepp.Properties.C09 / trigger of Sbepp.Gen.Pipeline, case, what, regex on the observed site)
 WITNESSES = [
-    ('main.cpp/main/rtfmt', {'files': {'schema.xml': _schema()}, 'argv': ['-{}'], 'mutation': 'witness'},
-     r'uncaught:fmt::format_error'),
-    ('main.cpp/main/rtfmt (schema text)', {'files': {'schema.xml': _schema('<type name="{" primitiveType="uint8"/>')},
-                                           'argv': garble.DEFAULT_ARGV, 'mutation': 'witness'},
-     r'uncaught:fmt::format_error'),
-    ('fs_provider.hpp/read_file/resize', {'files': {}, 'dirs': ['adir'], 'argv': ['--output-dir', '{OUT}', 'adir'],
-                                          'mutation': 'witness'}, r'uncaught:std::length_error|asan:.*(alloc|size)'),
-    ('schema_parser.hpp/parse_type_encoding/optderef',
+    ('witness_brace_arg/diagHasBrace', {'files': {'schema.xml': _schema()}, 'argv': ['-{}'], 'mutation': 'witness'},
+     'abort', r'uncaught:fmt::format_error'),
+    ('witness_brace_path/diagHasBrace', {'files': {}, 'argv': ['--output-dir', '{OUT}', 'no{such}.xml'],
+                                         'mutation': 'witness'}, 'abort', r'uncaught:fmt::format_error'),
+    ('diagHasBrace (schema text)', {'files': {'schema.xml': _schema('<type name="{" primitiveType="uint8"/>')},
+                                    'argv': garble.DEFAULT_ARGV, 'mutation': 'witness'},
+     'abort', r'uncaught:fmt::format_error'),
+    ('witness_directory/inputIsDirectory', {'files': {}, 'dirs': ['adir'], 'argv': ['--output-dir', '{OUT}', 'adir'],
+                                            'mutation': 'witness'}, 'abort', r'uncaught:std::length_error|asan:.*(alloc|size)'),
+    ('witness_const_char/constCharNoValue',
      {'files': {'schema.xml': _schema('<type name="K" primitiveType="char" presence="constant"/>')},
-      'argv': garble.DEFAULT_ARGV, 'mutation': 'witness'}, r'glibcxx-assert:optional:.*_M_is_engaged'),
-    ('schema_parser.hpp/parse_include/recursion',
+      'argv': garble.DEFAULT_ARGV, 'mutation': 'witness'}, 'abort', r'glibcxx-assert:optional:.*_M_is_engaged'),
+    ('witness_const_char_value_ref/constCharNoValue',
+     {'files': {'schema.xml': _schema(ENUM + '<type name="K" primitiveType="char" presence="constant" valueRef="E.A"/>')},
+      'argv': garble.DEFAULT_ARGV, 'mutation': 'witness'}, 'abort', r'glibcxx-assert:optional:.*_M_is_engaged'),
+    ('witness_include_cycle/includeCycle',
      {'files': {'schema.xml': _schema().replace(b'<types>', b'<xi:include %s href="self.xml"/><types>' % XI.encode()),
                 'self.xml': b'<xi:include %s href="self.xml"/>' % XI.encode()},
-      'argv': garble.DEFAULT_ARGV, 'mutation': 'witness'}, r'asan:stack-overflow|signal-11|timeout'),
+      'argv': garble.DEFAULT_ARGV, 'mutation': 'witness'}, 'abort', r'asan:stack-overflow|signal-11|timeout'),
+    ('witness_depth/nestingTooDeep', {'files': {'schema.xml': _schema(_deep(20000))}, 'argv': garble.DEFAULT_ARGV,
+                                      'mutation': 'witness'}, 'abort', r'asan:stack-overflow|signal-11'),
+    ('witness_offset/offsetBeyondContent', {'files': {'schema.xml': b'            <type name'},
+                                            'argv': garble.DEFAULT_ARGV, 'mutation': 'witness'},
+     'abort', r'assert:location_manager.hpp'),
+    ('witness_files_after_reject/openFails',
+     {'files': {'schema.xml': _schema(msgs='<message name="M" id="1"/>')},
+      'argv': ['--schema-name', 'x' * 255] + garble.DEFAULT_ARGV, 'mutation': 'witness'},
+     'files-after-reject', r"can't open file"),
 ]
 
 
@@ -337,44 +393,53 @@ def fuzz(chk, exe, scratch):
     thorough = chk.tier == 'thorough'
     ncases = 110000 if thorough else 4200
     nbase = 500 if thorough else 80
-    bases = base_schemas(chk, nbase)
+    all_bases = base_schemas(chk, nbase)
     rng = random.Random(chk.seed * 7919 + 9)
     gb = garble.Garbler(rng)
-    # sanity: every base schema is accepted (otherwise garbling starts from junk)
+    # the unmodified base schemas are cases themselves; only accepted ones are garbled
+    # (otherwise every descendant of a crashing base repeats that crash and hides others)
     cases = []
-    for name, xml in bases:
+    for name, xml in all_bases:
         cases.append({'files': {'schema.xml': xml.encode()}, 'dirs': [], 'argv': list(garble.DEFAULT_ARGV),
                       'mutation': 'base', 'detail': name})
-    while len(cases) < ncases:
-        name, xml = bases[rng.randrange(len(bases))]
+
+    def accepted(i):
+        d = os.path.join(scratch, 'b%d' % i)
         try:
-            # included files of the repo schemas are not copied: use generated ones for include cases
-            c = gb.case(xml)
-        except Exception as ex:      # a garbler slip must not stop the run
-            chk.extra.setdefault('garbler_errors', []).append(repr(ex)[:100])
-            if len(chk.extra['garbler_errors']) > 50:
-                raise
-            continue
-        c['base'] = name
-        cases.append(c)
+            rc, out, new = run_case(exe, cases[i], d)
+            return classify(rc, out, new)['what'] == 'ok'
+        finally:
+            shutil.rmtree(d, ignore_errors=True)
+    with concurrent.futures.ThreadPoolExecutor(max_workers=core.NPROC) as ex:
+        acc = list(ex.map(accepted, range(len(cases))))
+    bases = [b for b, a in zip(all_bases, acc) if a]
+    if len(bases) < max(3, len(all_bases) // 3):
+        chk.report_unproved('generator', 'only %d of %d base schemas are accepted by sbeppc' % (len(bases), len(all_bases)))
+        bases = all_bases
     outcome_hist, diag_hist, fail_by_sig = {}, {}, {}
     mut_outcomes = {}
+    distinct = set()
     t0 = time.time()
+    total = [0]
 
-    def work(i):
-        c = cases[i]
+    def work(ic):
+        i, c = ic
         d = os.path.join(scratch, 'w%d' % i)
         try:
             rc, out, new = run_case(exe, c, d)
-            return i, classify(rc, out, new), out[-3000:]
+            return c, classify(rc, out, new), out[-3000:]
         finally:
             shutil.rmtree(d, ignore_errors=True)
 
-    base_ok = 0
-    with concurrent.futures.ThreadPoolExecutor(max_workers=core.NPROC) as ex:
-        for i, cl, out in ex.map(work, range(len(cases)), chunksize=8):
-            c = cases[i]
+    def size(k):
+        return sum(len(v) for v in k['files'].values())
+
+    def tally(results):
+        base_ok = 0
+        for c, cl, out in results:
+            total[0] += 1
             w = cl['what']
+            distinct.add((c['mutation'], c.get('detail', '')))
             outcome_hist[w] = outcome_hist.get(w, 0) + 1
             mo = mut_outcomes.setdefault(c['mutation'], {})
             mo[w] = mo.get(w, 0) + 1
@@ -385,24 +450,53 @@ def fuzz(chk, exe, scratch):
             if w in ('ok', 'diag', 'exec-failed'):
                 continue
             sig = signature(cl)
-            ent = fail_by_sig.setdefault(sig, {'count': 0, 'first': i, 'class': cl, 'out': out, 'mutations': {}})
+            ent = fail_by_sig.setdefault(sig, {'count': 0, 'case': c, 'class': cl, 'out': out, 'mutations': {}})
             ent['count'] += 1
             ent['mutations'][c['mutation']] = ent['mutations'].get(c['mutation'], 0) + 1
-            if len(c['files'].get('schema.xml', b'')) < len(cases[ent['first']]['files'].get('schema.xml', b'')) and \
-                    c['mutation'] != 'many':
-                ent.update({'first': i, 'class': cl, 'out': out})
+            if size(c) < size(ent['case']):
+                ent.update({'case': c, 'class': cl, 'out': out})
+        return base_ok
+
+    def gen_chunk(n):
+        out = []
+        while len(out) < n:
+            name, xml = bases[rng.randrange(len(bases))]
+            try:
+                c = gb.case(xml)
+            except Exception as ex:      # a garbler slip must not stop the run
+                chk.extra.setdefault('garbler_errors', []).append(repr(ex)[:100])
+                if len(chk.extra['garbler_errors']) > 50:
+                    raise
+                continue
+            c['base'] = name
+            out.append(c)
+        return out
+
+    # cases are generated and run in chunks (the whole stream does not fit in memory)
+    with concurrent.futures.ThreadPoolExecutor(max_workers=core.NPROC) as ex:
+        base_ok = tally(ex.map(work, enumerate(cases), chunksize=4))
+        done = len(cases)
+        while done < ncases:
+            chunk = gen_chunk(min(2000, ncases - done))
+            tally(ex.map(work, enumerate(chunk, start=done), chunksize=8))
+            done += len(chunk)
+    ncases_run = total[0]
     chk.log('fuzz: %d cases in %.1fs; outcomes %s; %d distinct failure signatures' % (
-        len(cases), time.time() - t0, json.dumps(outcome_hist, sort_keys=True), len(fail_by_sig)))
-    if base_ok < len(bases):
-        chk.log('note: %d of %d base schemas are not accepted by sbeppc' % (len(bases) - base_ok, len(bases)))
+        ncases_run, time.time() - t0, json.dumps(outcome_hist, sort_keys=True), len(fail_by_sig)))
+    if base_ok < len(all_bases):
+        chk.log('note: %d of %d base schemas are not accepted by sbeppc (not garbled further)' % (
+            len(all_bases) - base_ok, len(all_bases)))
     # report one (minimised) failure per signature
     for sig, ent in sorted(fail_by_sig.items(), key=lambda kv: str(kv[0])):
-        c = cases[ent['first']]
-        mc = minimise(exe, c, sig, scratch)
+        kase = {k: v for k, v in ent['class'].items() if k in ('what', 'signal', 'site', 'rc')}
+        kase['mutation'] = ent['case']['mutation']
+        known = any(f.get('status') == 'open' and core.match_finding(f.get('match', {}), kase) for f in chk.findings)
+        # a known finding is only counted; anything else is minimised before it is reported
+        mc = ent['case'] if known else minimise(exe, ent['case'], sig, scratch)
         report(chk, exe, mc, ent['class'], ent['out'], scratch, count=ent['count'], mutations=ent['mutations'])
-    chk.cov['evaluations'] = len(cases)
-    chk.cov['programs'] = len(bases)
-    chk.cov['distinct_nontrivial'] = len({(c['mutation'], c.get('detail', '')) for c in cases})
+    chk.cov['evaluations'] = ncases_run
+    chk.cov['programs'] = len(all_bases)
+    chk.cov['distinct_nontrivial'] = len(distinct)
     chk.cov['rule'] = ('one evaluation = one run of the hardened sbeppc on one garbled case; distinct = distinct '
                        '(mutation, detail) pairs; base schemas are run unmodified first')
     chk.cov['outcomes'] = outcome_hist
@@ -412,7 +506,7 @@ def fuzz(chk, exe, scratch):
     chk.cov['diagnostic_histogram_top'] = dict(sorted(diag_hist.items(), key=lambda kv: -kv[1])[:40])
     chk.cov['failure_signatures'] = {'%s|%s' % s: {'count': e['count'], 'mutations': e['mutations']}
                                      for s, e in fail_by_sig.items()}
-    chk.cov['base_accepted'] = '%d/%d' % (base_ok, len(bases))
+    chk.cov['base_accepted'] = '%d/%d' % (base_ok, len(all_bases))
 
 
 def encode_case(c):
@@ -451,7 +545,7 @@ def witnesses(chk, exe, scratch):
     it on the real code.  A witness that crashes is a violation (reported like
     any other); one that does not crash any more means the model is stale."""
     res = {}
-    for i, (site, case, rx) in enumerate(WITNESSES):
+    for i, (site, case, what, rx) in enumerate(WITNESSES):
         d = os.path.join(scratch, 'wit%d' % i)
         try:
             rc, out, new = run_case(exe, case, d)
@@ -459,13 +553,14 @@ def witnesses(chk, exe, scratch):
             shutil.rmtree(d, ignore_errors=True)
         cl = classify(rc, out, new)
         res[site] = {'what': cl['what'], 'site': cl.get('site')}
-        if cl['what'] == 'abort' and re.search(rx, cl.get('site', '')):
+        if cl['what'] == what and re.search(rx, cl.get('site', '')):
             report(chk, exe, case, cl, out[-3000:], scratch, mutations={'witness': 1})
         elif cl['what'] in ('ok', 'diag'):
             chk.report_unproved('impl≠model (implementation agrees with the specification)',
-                                {'lean_site': site, 'model': 'crash', 'impl': cl,
-                                 'hint': 'the site is marked unguarded in Sbepp.Gen.Pipeline.guardTable but the '
-                                         'witness no longer crashes: update the table/refutation'})
+                                {'lean_witness': site, 'model': what, 'impl': cl,
+                                 'hint': 'Sbepp.Properties.C09 refutes the full-strength statement with this witness, '
+                                         'but the real sbeppc no longer fails on it: the code was fixed -- update '
+                                         'Sbepp.Gen.Pipeline (guard table, trigger) and drop the refutation'})
         else:
             report(chk, exe, case, cl, out[-3000:], scratch, mutations={'witness': 1})
     chk.cov['witness_replays'] = res
